@@ -1402,7 +1402,20 @@ def _load(t):
     return t2
 
 
+_GEN_CACHE = {}
+
+
 def _is_generator(fn):
+    r = _GEN_CACHE.get(id(fn))
+    if r is None:
+        r = _is_generator_uncached(fn)
+        _GEN_CACHE[id(fn)] = r
+    return r
+
+
+def _is_generator_uncached(fn):
+    if isinstance(fn, ast.Lambda):
+        return False
     for n in ast.walk(fn):
         if isinstance(n, (ast.Yield, ast.YieldFrom)):
             # ignore yields of nested defs
